@@ -1,5 +1,6 @@
 import SameVerif.Model.FullRx
 import SameVerif.Model.Program
+import SameVerif.Model.BuilderCfg
 import Driver.Dsp
 /-
   `rx.full`: the whole-receiver model (Model/FullRx.lean, `Float32`) run on a raw audio file
@@ -96,6 +97,48 @@ def fullRxResetOp (args : List String) : IO String := do
         | none => return "PANIC"
         | some (_, e2) => return s!"{showEvs e1} || {showEvs e2}"
   | _, _, _ => return "bad-op"
+
+/-- `cfg.build rate dc agcbw gmin gmax tbu tbl dev sqo sqc sqbw pme <eq|none> fpe fmi aU bU aL bL defaultReg`:
+    the setters and `From<&SameReceiverBuilder>` derivations; answer = the constructor arguments (as `cfg_tokens`
+    of the harness renders them, without the taps) -/
+def cfgBuildOp (args : List String) : Option String :=
+  match args with
+  | [rate, dc, agcbw, gmin, gmax, tbu, tbl, dev, sqo, sqc, sqbw, pme, eq, fpe, fmi, aU, bU, aL, bL, dreg] =>
+    match rate.toNat?, f32Of dc, f32Of agcbw, f32Of gmin, f32Of gmax, f32Of tbu, f32Of tbl, f32Of dev with
+    | some rate, some dc, some agcbw, some gmin, some gmax, some tbu, some tbl, some dev =>
+      match f32Of sqo, f32Of sqc, f32Of sqbw, pme.toNat?, fpe.toNat?, fmi.toNat?, f32Of aU, f32Of bU with
+      | some sqo, some sqc, some sqbw, some pme, some fpe, some fmi, some aU, some bU =>
+        match f32Of aL, f32Of bL, f32Of dreg with
+        | some aL, some bL, some dreg =>
+          let eqArg : Option (Option (Nat × Nat × Float32 × Float32)) :=
+            if eq == "none" then some none
+            else match eq.splitOn "," with
+              | [a, b, c, d] =>
+                match a.toNat?, b.toNat?, f32Of c, f32Of d with
+                | some a, some b, some c, some d => some (some (a, b, c, d))
+                | _, _, _, _ => none
+              | _ => none
+          match eqArg with
+          | none => some "bad-op"
+          | some eqArg =>
+            let a : BuilderArgs Float32 :=
+              ⟨rate, dc, agcbw, gmin, gmax, tbu, tbl, dev, sqo, sqc, sqbw, pme, eqArg, fpe, fmi⟩
+            match applySetters (Float32.ofBits 0x7f7fffff) a with
+            | none => some "PANIC"
+            | some b =>
+              let d : Derive Float32 :=
+                ⟨Float32.ofBits 0x4402351f, fun x => x.toUInt64.toNat,
+                 fun bw => if bw.toBits == b.timingBwUnlocked.toBits then (aU, bU) else (aL, bL),
+                 fun _ => ([], []), dreg⟩
+              let c := rxCfgOf d b
+              some (" ".intercalate [toString c.rate, f32Hex c.sps, toString c.dcLen, f32Hex c.agcBw, f32Hex c.agcMin, f32Hex c.agcMax,
+                f32Hex c.alphaU, f32Hex c.betaU, f32Hex c.alphaL, f32Hex c.betaL, f32Hex c.maxDev, f32Hex c.powerOpen,
+                f32Hex c.powerClose, f32Hex c.squelchBw, toString c.nff, toString c.nfb, f32Hex c.relax, f32Hex c.reg,
+                toString c.lcfg.maxErrors, toString c.lcfg.fc.maxPrefixErr, toString c.lcfg.fc.maxInvalid])
+        | _, _, _ => some "bad-op"
+      | _, _, _, _, _, _, _, _ => some "bad-op"
+    | _, _, _, _, _, _, _, _ => some "bad-op"
+  | _ => none
 
 def showAMsgF (m : AMsg) : String :=
   match m with
